@@ -88,6 +88,16 @@ class _Canon(ast.NodeTransformer):
                 first = ast.copy_location(ast.Assign(targets=[slots[0]], value=node.value, lineno=node.lineno), node)
                 second = ast.copy_location(ast.Assign(targets=[names[0]], value=load, lineno=node.lineno), node)
                 return [first, second]
+        # a, b = (x, y) if c else (u, v):  if c: a = x; b = y  else: a = u; b = v
+        if len(node.targets) == 1 and isinstance(node.targets[0], ast.Tuple) and isinstance(node.value, ast.IfExp) \
+                and isinstance(node.value.body, ast.Tuple) and isinstance(node.value.orelse, ast.Tuple) \
+                and len(node.value.body.elts) == len(node.value.orelse.elts) == len(node.targets[0].elts) \
+                and not any(isinstance(e, ast.Starred) for e in node.targets[0].elts + node.value.body.elts + node.value.orelse.elts):
+            def arm(values):
+                inner = ast.copy_location(ast.Assign(targets=[copy.deepcopy(node.targets[0])], value=values, lineno=node.lineno), node)
+                out = self.visit_Assign(inner)
+                return out if isinstance(out, list) else [out]
+            return ast.copy_location(ast.If(test=node.value.test, body=arm(node.value.body), orelse=arm(node.value.orelse)), node)
         # a, b = x, y  with plain names/attributes on the right and no name written that is read later on the right:  a = x; b = y
         if len(node.targets) == 1 and isinstance(node.targets[0], ast.Tuple) and isinstance(node.value, ast.Tuple) \
                 and len(node.targets[0].elts) == len(node.value.elts) and not any(isinstance(e, ast.Starred) for e in node.targets[0].elts + node.value.elts) \
@@ -174,6 +184,7 @@ class _SetDefault(ast.NodeTransformer):
 def canonicalise(tree: ast.AST, eq_none: bool = True) -> None:
     """*eq_none* = False where ``==`` may be overloaded to build an object (the SD DSL): there ``x == None`` is not ``x is None``."""
     _Canon(eq_none).visit(tree)
+    _closure_factories(tree)
     _dispatch_tables(tree)
     _strategy_tables(tree)
     _merge_copies(tree)
@@ -181,6 +192,8 @@ def canonicalise(tree: ast.AST, eq_none: bool = True) -> None:
     _SetDefault().visit(tree)
     propagate_constants(tree)
     _Unroll().visit(tree)
+    if _closure_factories(tree) or True:
+        _dicts_built_by_update(tree)
     for fn in [n for n in ast.walk(tree) if isinstance(n, (ast.FunctionDef, ast.AsyncFunctionDef))]:
         propagate_attribute_aliases(fn)
     ast.fix_missing_locations(tree)
@@ -312,6 +325,90 @@ def _strategy_tables(tree: ast.AST) -> int:
     return done
 
 
+def _dicts_built_by_update(tree: ast.AST) -> int:
+    """Module level: ``T = {...}`` followed (before any other use) by ``T.update({...})`` statements with literal dicts: one literal."""
+    if not isinstance(tree, ast.Module):
+        return 0
+    done = 0
+    i = 0
+    body = tree.body
+    while i < len(body):
+        st = body[i]
+        if isinstance(st, ast.Assign) and len(st.targets) == 1 and isinstance(st.targets[0], ast.Name) and isinstance(st.value, ast.Dict) \
+                and all(k is not None for k in st.value.keys):
+            name = st.targets[0].id
+            j = i + 1
+            while j < len(body):
+                u = body[j]
+                if isinstance(u, ast.Expr) and isinstance(u.value, ast.Call) and isinstance(u.value.func, ast.Attribute) and u.value.func.attr == "update" \
+                        and isinstance(u.value.func.value, ast.Name) and u.value.func.value.id == name and len(u.value.args) == 1 and not u.value.keywords \
+                        and isinstance(u.value.args[0], ast.Dict) and all(k is not None for k in u.value.args[0].keys):
+                    have = {ast.dump(k): n_ for n_, k in enumerate(st.value.keys)}
+                    for k_, v_ in zip(u.value.args[0].keys, u.value.args[0].values):
+                        if ast.dump(k_) in have:
+                            st.value.values[have[ast.dump(k_)]] = v_          # a later update wins
+                        else:
+                            st.value.keys.append(k_)
+                            st.value.values.append(v_)
+                    del body[j]
+                    done += 1
+                    continue
+                break
+        i += 1
+    return done
+
+
+def _closure_factories(tree: ast.AST) -> int:
+    """``emit = make(sym)`` with ``def make(sym): def inner(a, b): return <expr>; return inner`` (a module-level factory of one
+    single-expression closure): the call is the lambda it returns, with the factory's parameters bound to the arguments."""
+    if not isinstance(tree, ast.Module):
+        return 0
+    factories: Dict[str, Tuple[ast.FunctionDef, ast.FunctionDef]] = {}
+    for f in tree.body:
+        if isinstance(f, ast.FunctionDef) and not f.decorator_list and not f.args.vararg and not f.args.kwarg:
+            body = _docless(list(f.body))
+            if len(body) == 2 and isinstance(body[0], ast.FunctionDef) and isinstance(body[1], ast.Return) and isinstance(body[1].value, ast.Name) \
+                    and body[1].value.id == body[0].name and not body[0].decorator_list:
+                inner = _docless(list(body[0].body))
+                if len(inner) == 1 and isinstance(inner[0], ast.Return) and inner[0].value is not None:
+                    factories[f.name] = (f, body[0])
+    if not factories:
+        return 0
+    done = 0
+
+    class T(ast.NodeTransformer):
+        def visit_FunctionDef(self, node):
+            if node.name in factories:
+                return node
+            self.generic_visit(node)
+            return node
+
+        def visit_Call(self, node):
+            nonlocal done
+            self.generic_visit(node)
+            if isinstance(node.func, ast.Name) and node.func.id in factories and not any(isinstance(a, ast.Starred) for a in node.args) \
+                    and not any(k.arg is None for k in node.keywords):
+                f, inner = factories[node.func.id]
+                params = [a.arg for a in f.args.args]
+                defaults = dict(zip(params[len(params) - len(f.args.defaults):], f.args.defaults)) if f.args.defaults else {}
+                actual: Dict[str, ast.AST] = dict(zip(params, node.args))
+                for k in node.keywords:
+                    actual[k.arg] = k.value
+                for p_ in params:
+                    if p_ not in actual and p_ in defaults:
+                        actual[p_] = defaults[p_]
+                if set(actual) != set(params) or not all(isinstance(v, ast.Constant) for v in actual.values()):
+                    return node
+                expr = _Subst(dict(actual), {}).visit(copy.deepcopy(_docless(list(inner.body))[0].value))
+                done += 1
+                return ast.copy_location(ast.Lambda(args=copy.deepcopy(inner.args), body=expr), node)
+            return node
+    T().visit(tree)
+    if done:
+        ast.fix_missing_locations(tree)
+    return done
+
+
 def _merge_copies(tree: ast.AST) -> None:
     """``t__h = e`` ... ``t = t__h`` where the first name is written once and read only by that copy (what looking through a helper
     whose local collides with a local of the caller leaves behind): the value is bound to the second name directly."""
@@ -428,6 +525,22 @@ def _const_seq(e: ast.AST) -> Optional[List[ast.AST]]:
     return None
 
 
+def _captured_by_closure(body: List[ast.AST], names: Set[str]) -> bool:
+    """Does a lambda / nested def in *body* read one of *names* as a free variable?  Such a loop must not be written out with the
+    values substituted: the closure sees the variable (its last value), not the value of its iteration - substituting would hide that."""
+    for st in body:
+        for c in ast.walk(st):
+            if isinstance(c, (ast.Lambda, ast.FunctionDef, ast.AsyncFunctionDef)):
+                a = c.args
+                own = {x.arg for x in a.posonlyargs + a.args + a.kwonlyargs} | ({a.vararg.arg} if a.vararg else set()) | ({a.kwarg.arg} if a.kwarg else set())
+                inner = [c.body] if isinstance(c, ast.Lambda) else c.body
+                for b in inner:
+                    for x in ast.walk(b):
+                        if isinstance(x, ast.Name) and isinstance(x.ctx, ast.Load) and x.id in names and x.id not in own:
+                            return True
+    return False
+
+
 class _Unroll(ast.NodeTransformer):
     """Loops and comprehensions over a literal tuple of constants are written out (for name in ("a", "b"): setattr(o, name, d[name])
     -> o.a = d["a"]; o.b = d["b"]); setattr/getattr with a constant name become attribute accesses."""
@@ -435,6 +548,7 @@ class _Unroll(ast.NodeTransformer):
     def __init__(self):
         self.local_tables: List[Dict[str, ast.AST]] = []
         self.mod_tables: Dict[str, ast.AST] = {}
+        self.mod_dicts: Dict[str, ast.Dict] = {}
         self.cls_tables: List[Dict[str, ast.AST]] = []
 
     @staticmethod
@@ -464,6 +578,22 @@ class _Unroll(ast.NodeTransformer):
 
     def visit_Module(self, node: ast.Module):
         self.mod_tables = self._tables_of(node.body, node)
+        # module-level dict literals of constants, bound once and never written to
+        count: Dict[str, int] = {}
+        self.mod_dicts = {}
+        for st in node.body:
+            if isinstance(st, ast.Assign) and len(st.targets) == 1 and isinstance(st.targets[0], ast.Name):
+                count[st.targets[0].id] = count.get(st.targets[0].id, 0) + 1
+                if isinstance(st.value, ast.Dict) and st.value.keys and all(isinstance(k, ast.Constant) for k in st.value.keys) \
+                        and all(isinstance(v, ast.Constant) for v in st.value.values):
+                    self.mod_dicts[st.targets[0].id] = st.value
+        self.mod_dicts = {k: v for k, v in self.mod_dicts.items() if count[k] == 1}
+        if self.mod_dicts:
+            for n in ast.walk(node):
+                if isinstance(n, ast.Subscript) and isinstance(n.ctx, (ast.Store, ast.Del)) and isinstance(n.value, ast.Name):
+                    self.mod_dicts.pop(n.value.id, None)
+                if isinstance(n, ast.Attribute) and isinstance(n.value, ast.Name) and n.attr in ("update", "pop", "setdefault", "clear", "popitem"):
+                    self.mod_dicts.pop(n.value.id, None)
         self.generic_visit(node)
         return node
 
@@ -508,7 +638,7 @@ class _Unroll(ast.NodeTransformer):
         self.generic_visit(node)
         if isinstance(node.target, ast.Tuple) and all(isinstance(x, ast.Name) for x in node.target.elts) and not node.orelse:
             rows = self._table_rows(node.iter, len(node.target.elts))
-            ok = rows is not None
+            ok = rows is not None and not _captured_by_closure(node.body, {x.id for x in node.target.elts})
             if ok:
                 for n in ast.walk(ast.Module(body=list(node.body), type_ignores=[])):
                     if isinstance(n, (ast.Break, ast.Continue)) or (isinstance(n, ast.Name) and isinstance(n.ctx, ast.Store) and n.id in {x.id for x in node.target.elts}):
@@ -523,7 +653,7 @@ class _Unroll(ast.NodeTransformer):
                         out.append(new)
                 return out
         seq_ = _const_seq(node.iter)
-        if seq_ is None or not isinstance(node.target, ast.Name) or node.orelse:
+        if seq_ is None or not isinstance(node.target, ast.Name) or node.orelse or _captured_by_closure(node.body, {node.target.id}):
             return node
         for n in ast.walk(ast.Module(body=list(node.body), type_ignores=[])):
             if isinstance(n, (ast.Break, ast.Continue)):
@@ -539,9 +669,23 @@ class _Unroll(ast.NodeTransformer):
 
     def visit_DictComp(self, node: ast.DictComp):
         self.generic_visit(node)
+        # {k: f(v) for k, v in TABLE.items()} with TABLE a module-level dict literal of constants that is never written to
+        if len(node.generators) == 1 and not node.generators[0].ifs and isinstance(node.generators[0].target, ast.Tuple) \
+                and len(node.generators[0].target.elts) == 2 and all(isinstance(e, ast.Name) for e in node.generators[0].target.elts):
+            it = node.generators[0].iter
+            if isinstance(it, ast.Call) and isinstance(it.func, ast.Attribute) and it.func.attr == "items" and not it.args \
+                    and isinstance(it.func.value, ast.Name) and it.func.value.id in self.mod_dicts:
+                kn, vn = [e.id for e in node.generators[0].target.elts]
+                if not _captured_by_closure([node.key, node.value], {kn, vn}):
+                    d = self.mod_dicts[it.func.value.id]
+                    keys, vals = [], []
+                    for k_, v_ in zip(d.keys, d.values):
+                        keys.append(_NameToConst(vn, v_).visit(_NameToConst(kn, k_).visit(copy.deepcopy(node.key))))
+                        vals.append(self.visit(_NameToConst(vn, v_).visit(_NameToConst(kn, k_).visit(copy.deepcopy(node.value)))))
+                    return ast.copy_location(ast.Dict(keys=keys, values=vals), node)
         if len(node.generators) == 1 and not node.generators[0].ifs and isinstance(node.generators[0].target, ast.Name):
             seq_ = _const_seq(node.generators[0].iter)
-            if seq_ is not None:
+            if seq_ is not None and not _captured_by_closure([node.key, node.value], {node.generators[0].target.id}):
                 nm = node.generators[0].target.id
                 keys = [_NameToConst(nm, c).visit(copy.deepcopy(node.key)) for c in seq_]
                 vals = [self.visit(_NameToConst(nm, c).visit(copy.deepcopy(node.value))) for c in seq_]
@@ -552,7 +696,7 @@ class _Unroll(ast.NodeTransformer):
         self.generic_visit(node)
         if len(node.generators) == 1 and not node.generators[0].ifs and isinstance(node.generators[0].target, ast.Name):
             seq_ = _const_seq(node.generators[0].iter)
-            if seq_ is not None:
+            if seq_ is not None and not _captured_by_closure([node.elt], {node.generators[0].target.id}):
                 nm = node.generators[0].target.id
                 return ast.copy_location(ast.List(elts=[self.visit(_NameToConst(nm, c).visit(copy.deepcopy(node.elt))) for c in seq_], ctx=ast.Load()), node)
         return node
@@ -1548,9 +1692,20 @@ class Inliner:
             return None
         if _contains_return(ast.Module(body=list(h.body), type_ignores=[])) and not getattr(s, "_tail", False):
             return None       # `return` in a generator ends the consumer's loop: only the same as `return` when nothing follows the loop
-        for n in ast.walk(ast.Module(body=list(s.body), type_ignores=[])):
-            if isinstance(n, ast.Break):
-                return None
+        has_break = any(isinstance(n, ast.Break) for n in ast.walk(ast.Module(body=list(s.body), type_ignores=[])))
+        if has_break and not getattr(s, "_tail", False):
+            return None
+        if has_break:
+            # leaving a loop that is the last statement of the function is returning from it
+            class B(ast.NodeTransformer):
+                def visit_For(self, node):
+                    return node          # a break of an inner loop stays
+
+                visit_While = visit_For
+
+                def visit_Break(self, node):
+                    return ast.copy_location(ast.Return(value=None), node)
+            s.body = [B().visit(st) for st in s.body]
         # yields must be expression statements
         ys = [n for n in ast.walk(ast.Module(body=list(h.body), type_ignores=[])) if isinstance(n, (ast.Yield, ast.YieldFrom))]
         stmts_y = [n for n in ast.walk(ast.Module(body=list(h.body), type_ignores=[])) if isinstance(n, ast.Expr) and isinstance(n.value, ast.Yield)]
@@ -2027,6 +2182,12 @@ def inline_module(tree: ast.Module, vocab: Set[str], global_classes: Optional[Di
         total += done
         if not done:
             break
+    # helpers of *other* modules that were looked through here: remembered on the definition (Index decides, once every module is
+    # done, whether any call to them is left anywhere)
+    if inl.inlined_into and (global_funcs or global_classes):
+        for f_ in list((global_funcs or {}).values()) + [m_ for c_ in (global_classes or {}).values() for m_ in c_.body if isinstance(m_, ast.FunctionDef)]:
+            if id(f_) in inl.inlined_into:
+                f_._looked_through = True
     # a helper every remaining reference of which is its own definition has been absorbed by its callers: rules that enumerate
     # functions skip it (its statements are analysed where they run)
     if inl.inlined_into:
